@@ -1,6 +1,7 @@
 (* C02 — embed: result = calling outer, which forwards *args/**kwargs to inner. *)
 From Sigtools.Model Require Import Base Bind Roles Algebra.
-From Sigtools.Proofs Require Import SmallModel Basics Deciders.
+From Sigtools.Model Require Import Universe.
+From Sigtools.Proofs Require Import SmallModel Basics Deciders SweepDefs SweepDefs2 Bounded2.
 
 (* every result of embed went through the validating constructor *)
 Theorem C02_wf ss uva uvk r : embed ss uva uvk = Ok r -> validate (params r) = true.
@@ -39,3 +40,25 @@ Theorem C02_chain_none_decider_complete o i uva uvk n0 names0 :
   forall c, chain o i uva uvk n0 names0 c = false.
 Proof. exact (chain_none_cex_complete o i uva uvk n0 names0). Qed.
 Print Assumptions C02_chain_none_decider_complete.
+ 
+(* Bounded (bound in the statement): outer in U(2,{a,b}) (220 signatures), inner in
+   U(1,{c,d}) (52), the four use_varargs/use_varkwargs combinations, ALL calls:
+   the result is sound for "calling outer, which forwards its surplus to inner",
+   exact unless outer has a defaulted positional parameter, and embed raises
+   only for a same-named parameter or when no call at all could succeed *)
+Theorem C02_embed_chain_U2 o i uva uvk :
+  In o U2ab -> In i U1cd ->
+  match embed [mk o; mk i] uva uvk with
+  | Ok r =>
+      (forall c, noncolliding c (params r) [o; i] = true -> accepts (params r) c = true ->
+                 chain o i uva uvk 0 [] c = true) /\
+      (has_default_pos o = false ->
+       forall c, noncolliding c (params r) [o; i] = true ->
+                 accepts (params r) c = chain o i uva uvk 0 [] c)
+  | Err Incompatible =>
+      existsb (fun p => is_named p && mem (pname p) (names_of (filter is_named i))) o = true
+      \/ forall c, chain o i uva uvk 0 [] c = false
+  | Err _ => True
+  end.
+Proof. exact (embed_chain_U2 o i uva uvk). Qed.
+Print Assumptions C02_embed_chain_U2.
